@@ -4,6 +4,10 @@
 import Lean.Data.Json
 import MafModel.Model.Record
 import MafModel.Spec.Layout
+import MafModel.Model.SortOrder
+import MafModel.Model.Sorter
+import MafModel.Model.Overlap
+import MafModel.Model.Header
 import MafModel.Generated.Enums
 import MafModel.Generated.ClassTable
 import MafModel.Generated.SchemeDefs
@@ -164,6 +168,27 @@ def schemeOf (env : Env) (j : Json) : Option Scheme :=
     | .ok (Json.arr a) => some (noRestrictionsScheme (a.toList.filterMap (fun x => match x with | Json.str s => some s | _ => none)))
     | _ => none
 
+def kvOf (j : Json) : KV :=
+  match j with
+  | Json.str s => .str (txt s)
+  | Json.num _ => match j.getInt? with | .ok i => .int i | _ => .none
+  | _ => .none
+
+def locOf (j : Json) : Loc :=
+  let f (k : String) : KV := kvOf ((j.getObjVal? k).toOption.getD Json.null)
+  { hasCoords := getBool j "hasCoords" true, tumor := f "tumor", normal := f "normal",
+    chr := f "chr", start := f "start", stop := f "stop" }
+
+def orderOf (j : Json) : Order :=
+  match getStr? j "order" with
+  | some "Coordinate" => .coordinate
+  | some "BarcodesAndCoordinate" => .barcodesAndCoordinate
+  | some "Unsorted" => .unsorted
+  | _ => .unknown
+
+def contigsOf (j : Json) : List Text :=
+  (getArr j "contigs").filterMap (fun x => match x with | Json.str s => some (txt s) | _ => none)
+
 def dispatch (env : Env) (j : Json) : Json :=
   match getStr? j "op" with
   | some "ping" => Json.mkObj [("pong", Json.bool true),
@@ -205,7 +230,7 @@ def dispatch (env : Env) (j : Json) : Json :=
     | .ok (r, logs) => Json.mkObj [("rec", recordJson C env r), ("logs", logsJson logs)]
     | .error e => Json.mkObj [("exc", Json.str (errName e))]
   | some "rec.edit" =>
-    let keyOf (j : Json) : Key :=
+    let keyOf (j : Json) : RKey :=
       match getStr? j "t" with
       | some "name" => .name (txt ((getStr? j "v").getD ""))
       | some "int" => .int ((getInt? j "v").getD 0)
@@ -239,6 +264,34 @@ def dispatch (env : Env) (j : Json) : Json :=
       (r', outs ++ [out], n + 1)
     let (_, outs, _) := (getArr j "ops").foldl step (({} : Record), [], 0)
     Json.mkObj [("steps", Json.arr outs.toArray)]
+  | some "sortkey.cmp" =>
+    let o := orderOf j
+    let cs := contigsOf j
+    let ka := mkKey o cs (locOf ((j.getObjVal? "a").toOption.getD Json.null))
+    let kb := mkKey o cs (locOf ((j.getObjVal? "b").toOption.getD Json.null))
+    let showB (r : Except PyErr Bool) : Json := match r with | .ok b => Json.bool b | .error e => Json.str (errName e)
+    match ka, kb with
+    | .ok a, .ok b => Json.mkObj [("lt", showB (keyLt a b)), ("le", showB (keyLe a b)), ("gt", showB (keyGt a b)),
+        ("ge", showB (keyGe a b)), ("eq", showB (keyEq a b)), ("ne", showB (keyNe a b)),
+        ("cmp", match cmpKey a b with | .ok d => Json.num (Lean.JsonNumber.fromInt d) | .error e => Json.str (errName e))]
+    | .error e, _ => Json.mkObj [("keyerr", Json.str (errName e))]
+    | _, .error e => Json.mkObj [("keyerr", Json.str (errName e))]
+  | some "checker.run" =>
+    let c : Checker := { order := orderOf j, contigs := contigsOf j }
+    let (out, err) := checkAll c ((getArr j "recs").map locOf)
+    Json.mkObj [("yielded", Json.num out.length),
+      ("err", match err with | some e => Json.str (errName e) | none => Json.null)]
+  | some "sorter.run" =>
+    -- items are [key, id] pairs of integers; `lt` compares keys
+    let items : List (Int × Int) := (getArr j "items").map (fun x => match x with
+      | Json.arr a => (((a[0]?.bind (fun v => v.getInt?.toOption)).getD 0), ((a[1]?.bind (fun v => v.getInt?.toOption)).getD 0))
+      | _ => (0, 0))
+    let lt (a b : Int × Int) : Bool := decide (a.1 < b.1)
+    let cap := (getNat? j "cap").getD 1
+    let s := items.foldl (Sorter.add lt) { cap := cap, alwaysSpill := getBool j "always_spill" true }
+    let out := s.iter lt
+    Json.mkObj [("out", Json.arr (out.map (fun p => Json.arr #[Json.num (Lean.JsonNumber.fromInt p.1), Json.num (Lean.JsonNumber.fromInt p.2)])).toArray),
+      ("files", Json.num s.files.length), ("stash", Json.num s.stash.length)]
   | some "spec.domain" =>
     let S : Spec.SCtx := { enums := Generated.enums, H := floatHostOf j }
     let ty : Option Spec.ColType := match getStr? j "cls" with
